@@ -996,6 +996,50 @@ func ruleFX2(c *Ctx) *rule {
 			if !(dres.hasCall("(github.com/FollowTheProcess/spok/ast.Tree).String") || dres.hasCall("(github.com/FollowTheProcess/spok/ast.Tree).Write")) || !dres.hasCall("(*github.com/FollowTheProcess/spok/parser.Parser).Parse") {
 				probs = append(probs, "the data is not Tree.String() of the parsed tree")
 			}
+			// ... and it is that text itself: nothing rewrites it between the printer and the write
+			{
+				seenV := map[ssa.Value]bool{}
+				var walk func(v ssa.Value) string
+				walk = func(v ssa.Value) string {
+					if v == nil || seenV[v] {
+						return ""
+					}
+					seenV[v] = true
+					for _, o := range append([]ssa.Value{v}, origins(v)...) {
+						switch x := o.(type) {
+						case *ssa.Convert:
+							if why := walk(x.X); why != "" {
+								return why
+							}
+						case *ssa.ChangeType:
+							if why := walk(x.X); why != "" {
+								return why
+							}
+						case *ssa.Phi:
+							for _, e := range x.Edges {
+								if why := walk(e); why != "" {
+									return why
+								}
+							}
+						case *ssa.BinOp:
+							if x.Op == token.ADD {
+								return "a concatenation (" + condText(x) + ")"
+							}
+						case *ssa.Call:
+							n := calleeName(x.Common())
+							switch {
+							case strings.HasSuffix(n, "ast.Tree).String"):
+							case strings.HasPrefix(n, "strings.") || strings.HasPrefix(n, "bytes.") || strings.HasPrefix(n, "(*strings.Replacer)") || strings.HasPrefix(n, "(*regexp.Regexp)") || strings.HasPrefix(n, "unicode/") || strings.HasPrefix(n, "golang.org/x/text"):
+								return "the result of " + n
+							}
+						}
+					}
+					return ""
+				}
+				if why := walk(dataArg); why != "" {
+					probs = append(probs, "what is written is not the printer's text itself but "+why+": the file then differs from Tree.String() (line ends, spacing), and a second --fmt rewrites it again")
+				}
+			}
 			// the parsed text was read from the same field
 			readOK := false
 			for _, rs := range callsTo(m.fn, "os.ReadFile") {
